@@ -1965,16 +1965,27 @@ class Type_Declaration_StmtBase(StmtBase):
             if j != -1:
                 i = j
         else:
+            # No '::' so the type specification ends at the first white
+            # space (or closing parenthesis) that is outside any
+            # parentheses and is followed by the start of a name.
+            start = 0
             if line[:6].upper() == "DOUBLE":
-                m = re.search(r"\s[a-z_]", line[6:].lstrip(), re.I)
-                if m is None:
-                    return
-                i = m.start() + len(line) - len(line[6:].lstrip())
-            else:
-                m = re.search(r"\s[a-z_]", line, re.I)
-                if m is None:
-                    return
-                i = m.start()
+                start = len(line) - len(line[6:].lstrip())
+            i = -1
+            depth = 0
+            for idx in range(start, len(line) - 1):
+                char = line[idx]
+                if char == "(":
+                    depth += 1
+                elif char == ")":
+                    depth -= 1
+                if depth == 0 and (char.isspace() or char == ")"):
+                    next_char = line[idx + 1]
+                    if next_char.isalpha() or next_char == "_":
+                        i = idx if char.isspace() else idx + 1
+                        break
+            if i == -1:
+                return
         type_spec = decl_type_spec_cls(repmap(line[:i].rstrip()))
         if type_spec is None:
             return
